@@ -64,8 +64,11 @@ class Worker:
             if self.spec.get("raise_at") == j:
                 raise RuntimeError("worker %d broke" % self.i)
             if self.kind == "stream" and self.spec.get("direct") and j % 2:
-                result.status(test_id="w%d.t%d" % (self.i, j), test_status="inprogress")
-                result.status(test_id="w%d.t%d" % (self.i, j), test_status="success")
+                # a worker forwarding complete event dicts passes every field, timestamp=None included
+                result.status(test_id="w%d.t%d" % (self.i, j), test_status="inprogress", timestamp=None)
+                result.status(test_id="w%d.t%d" % (self.i, j), test_status="success", test_tags=None,
+                              runnable=True, file_name=None, file_bytes=None, eof=False, mime_type=None,
+                              route_code=None, timestamp=None)
             else:
                 testtools.PlaceHolder("w%d.t%d" % (self.i, j),
                                       outcome=["addSuccess", "addError", "addSkip"][(self.i + j) % 3]).run(result)
@@ -100,6 +103,10 @@ def execute(case, chooser):
         sch.yield_point("res." + name)
         if name in ("status",) or name in recorders.OUTCOMES or name in ("startTest", "stopTest"):
             counts["events"] += 1
+            if case.get("cts_fault") and name in recorders.OUTCOMES:
+                counts["outcomes"] = counts.get("outcomes", 0) + 1
+                if counts["outcomes"] == case["cts_fault"]:
+                    raise Marker("caller's result raises at outcome %d" % case["cts_fault"])
             if abort and abort[0] == "result" and counts["events"] == abort[1]:
                 sch.abort_snapshot = snap_finished(sch, runlog)
                 raise Marker("caller's result raises at event %d" % abort[1])
@@ -134,6 +141,7 @@ def execute(case, chooser):
 
     workers = [Worker(i, spec, runlog, sch, kind) for i, spec in enumerate(workers_spec)]
     yielded = []
+    route_of = (lambda i: case["same_route"]) if "same_route" in case else (lambda i: "r%d" % i)
 
     def make_tests_cts(suite):
         for i, w in enumerate(workers):
@@ -149,7 +157,7 @@ def execute(case, chooser):
                 sch.abort_snapshot = snap_finished(sch, runlog)
                 raise Marker("make_tests fails after %d" % i)
             yielded.append(i)
-            yield (w, "r%d" % i)
+            yield (w, route_of(i))
 
     saved = (ts.threading, ts.Queue, testtools.ThreadsafeForwardingResult, testtools.ExtendedToStreamDecorator)
     ts.threading = shim
@@ -229,6 +237,8 @@ def check(ctx, case, sch, log, runlog, created, exc, yielded, shim, target, deta
                 interleaved.append((open_test, e.test))
         ctx.check(not interleaved, "cts.one-test-at-a-time", lambda: {"interleaved": interleaved[:5], **detail()})
         for i, spec in enumerate(specs):
+            if case.get("cts_fault"):
+                break  # which outcomes arrive depends on where the caller's result raised
             want = []
             r = spec.get("raise_at")
             for j in range(spec["tests"]):
@@ -238,6 +248,13 @@ def check(ctx, case, sch, log, runlog, created, exc, yielded, shim, target, deta
             mine = [e.test for e in ev if e.name in recorders.OUTCOMES and e.test.startswith("w%d." % i)]
             ctx.check(mine == want, "events.exactly-once-in-worker-order",
                       lambda: {"worker": i, "got": mine, "want": want, **detail()})
+        if case.get("cts_fault"):
+            # a worker whose reporting blew up is reported as a broken runner, and the result still
+            # sees one test at a time (checked above)
+            ctx.check(any(e.name == "addError" and e.test == "broken-runner" for e in ev) or
+                      sum(s["tests"] for s in specs) < case["cts_fault"], "broken-runner.reported",
+                      lambda: {"cts_fault": case["cts_fault"], "events": [(e.name, e.test) for e in ev][-8:], **detail()})
+            return
         broken = [e for e in ev if e.name == "addError" and e.test == "broken-runner"]
         n_broken = sum(1 for s in specs if s.get("raise_at") is not None)
         if n_broken:
@@ -245,15 +262,20 @@ def check(ctx, case, sch, log, runlog, created, exc, yielded, shim, target, deta
                       lambda: {"reported": len(broken), "want": n_broken, **detail()})
     else:
         ev = [e.payload for e in log.of("status")]
+        codes = [case["same_route"]] if "same_route" in case else ["r%d" % i for i in range(len(specs))]
         ctx.check(all(p["timestamp"] is not None for p in ev) and
-                  all(p["route_code"] is not None and p["route_code"].split("/")[0] in
-                      ["r%d" % i for i in range(len(specs))] for p in ev),
+                  all((p["route_code"] is None and codes == [None]) or
+                      (p["route_code"] is not None and p["route_code"].split("/")[0] in codes) for p in ev),
                   "stream.route-code-and-timestamp",
                   lambda: {"bad": [(p["test_id"], p["route_code"], p["timestamp"]) for p in ev
                                    if p["timestamp"] is None or p["route_code"] is None][:5], **detail()})
         for i, spec in enumerate(specs):
+            code_i = case["same_route"] if "same_route" in case else "r%d" % i
+            shared = "same_route" in case
             mine = [(p["test_id"], p["test_status"]) for p in ev
-                    if p["route_code"] == "r%d" % i and p["test_status"] is not None]
+                    if p["route_code"] == code_i and p["test_status"] is not None
+                    and (p["test_id"].startswith("w%d." % i) or
+                         (not shared and p["test_id"] == "broken-runner-'%s'" % code_i))]
             want = []
             r = spec.get("raise_at")
             for j in range(spec["tests"]):
@@ -265,11 +287,19 @@ def check(ctx, case, sch, log, runlog, created, exc, yielded, shim, target, deta
                 else:
                     want += [(tid, "inprogress"), (tid, ["success", "fail", "skip"][(i + j) % 3])]
             if r is not None:
-                want += [("broken-runner-'r%d'" % i, "inprogress"), ("broken-runner-'r%d'" % i, "fail")]
+                want += [("broken-runner-'%s'" % code_i, "inprogress"), ("broken-runner-'%s'" % code_i, "fail")]
+            if shared and r is not None:
+                want = want[:-2]  # broken runners share one id under a shared route code: counted below
             ctx.check(mine == want, "events.exactly-once-in-worker-order",
                       lambda: {"worker": i, "got": mine, "want": want, **detail()})
-            if r is not None:
-                ctx.check(("broken-runner-'r%d'" % i, "fail") in mine, "broken-runner.reported",
+            if r is not None and shared:
+                n_fail = sum(1 for p in ev if p["test_id"] == "broken-runner-'%s'" % code_i
+                             and p["test_status"] == "fail")
+                n_raise = sum(1 for sp in specs if sp.get("raise_at") is not None)
+                ctx.check(n_fail == n_raise, "broken-runner.reported",
+                          lambda: {"reported": n_fail, "raising workers": n_raise, **detail()})
+            elif r is not None:
+                ctx.check(("broken-runner-'%s'" % code_i, "fail") in mine, "broken-runner.reported",
                           lambda: {"worker": i, "got": mine, **detail()})
 
 
@@ -366,7 +396,13 @@ def run(ctx):
             workers.append(w)
         case = {"kind": kind, "workers": workers, "mode": rng.choice(["random", "random", "pct"]),
                 "rseed": rng.randrange(10 ** 9), "p": rng.choice([0.1, 0.5, 0.9]), "depth": rng.randint(1, 3)}
-        if rng.random() < 0.3:
+        if kind == "stream" and rng.random() < 0.2:
+            case["same_route"] = rng.choice([None, "shared"])
+        if kind == "cts" and rng.random() < 0.2:
+            case["cts_fault"] = rng.randint(1, 6)
+            for w in workers:
+                w.pop("raise_at", None)  # the fault must hit a worker's test, not a broken-runner report
+        elif rng.random() < 0.3:
             r = rng.random()
             if r < 0.3:
                 case["abort"] = ["make_tests", rng.randint(0, len(workers) - 1)]
